@@ -9,7 +9,7 @@ for id in "$@"; do
   [ -d "$s" ] || { echo "$id: no _seed"; continue; }
   git -C $w checkout -q -- ebpfcat
   mkdir -p /verif/seeded/$id
-  for v in A B; do
+  for v in ${VARIANTS:-A B}; do
     [ -f $s/$v.diff ] || { echo "$id/$v: missing diff"; continue; }
     if ! git -C $w apply --check $s/$v.diff 2>/dev/null; then echo "$id/$v: diff does not apply"; continue; fi
     (cd $w && timeout 300 /venv/bin/python _seed/${v}_demo.py >/dev/null 2>&1); clean=$?
@@ -30,6 +30,12 @@ except FileNotFoundError:
         meta = json.load(open(f"/tmp/seed/{pid}/_seed/meta.json"))
     except Exception:
         meta = {}
+try:
+    fresh = json.load(open(f"/tmp/seed/{pid}/_seed/meta.json"))
+    if v in fresh and v not in meta:
+        meta[v] = fresh[v]
+except Exception:
+    pass
 meta.setdefault(v, {})
 if not isinstance(meta[v], dict):
     meta[v] = {"summary": str(meta[v])}
